@@ -9,6 +9,7 @@ from .base import Adapter, points_for, with_ids
 
 
 class PDP(Adapter):
+    reward_from_actions = True
     name = "pdp"
     module = "PDP"
     pad_steps = 0
